@@ -55,7 +55,7 @@ class Unit:
     def __init__(s, name, wrap, harness, externs=(), ll2c_args=(), cxxflags=(), extra_c=(), real_link=(), san=True, tv=True, extra_repo_cc=()):
         s.name = name; s.wrap = wrap; s.harness = harness; s.externs = list(externs); s.ll2c_args = list(ll2c_args)
         s.cxxflags = list(cxxflags); s.extra_c = list(extra_c); s.real_link = list(real_link); s.san = san; s.tv = tv
-        s.extra_repo_cc = list(extra_repo_cc); s.stub_undefined = False; s.cdefs = []
+        s.extra_repo_cc = list(extra_repo_cc); s.stub_undefined = False; s.cdefs = []; s.tool_c = []
 
 class Harness:
     def __init__(s, name, unit, unwind=4, unwindset=(), backend='sat', timeout=120, mem_gb=8, defines=(), bounds='', claims='',
@@ -147,7 +147,7 @@ class Check:
         extra = [os.path.join(s.hdir, x) for x in u.extra_c]
         if which == 'gen':
             cmd = ['gcc', '-O1', '-w', '-DVF_NATIVE', '-DVF_GEN', '-fno-strict-aliasing'] + ['-D' + x for x in u.cdefs] + inc + [os.path.join(d, 'gen.c'), os.path.join(TOOLS, 'vf_rt.c'), os.path.join(TOOLS, 'vf_libc.c'),
-                   os.path.join(TOOLS, 'vf_native.c'), os.path.join(d, 'table.c'), hc] + extra + ['-lm', '-o', exe]
+                   os.path.join(TOOLS, 'vf_native.c'), os.path.join(d, 'table.c'), hc] + extra + [os.path.join(TOOLS, x) for x in u.tool_c] + ['-lm', '-o', exe]
             rc, out, err, dt = run(cmd, timeout=600)
             if rc != 0: s.log('native gen build failed:', err[-1500:]); return None
         else:
@@ -203,7 +203,7 @@ class Check:
     def cbmc_cmd(s, info, h, witness, extra=()):
         u = info['unit']; d = info['dir']
         cmd = ['cbmc', os.path.join(d, 'gen.c'), os.path.join(TOOLS, 'vf_rt.c'), os.path.join(TOOLS, 'vf_libc.c'), os.path.join(s.hdir, u.harness)]
-        cmd += [os.path.join(s.hdir, x) for x in u.extra_c]
+        cmd += [os.path.join(s.hdir, x) for x in u.extra_c] + [os.path.join(TOOLS, x) for x in u.tool_c]
         cmd += ['-I' + TOOLS, '-I' + d, '-I' + s.hdir, '--function', h.name, '--unwind', str(h.unwind)]
         if h.unwindset: cmd += ['--unwindset', ','.join(h.unwindset)]
         cmd += CBMC_FLAGS + h.flags
